@@ -1,7 +1,11 @@
 package main
 
 import (
+	"context"
+	"errors"
 	"fmt"
+	"io"
+	"io/fs"
 	"path"
 	"strings"
 	"sync"
@@ -87,6 +91,10 @@ func splitWalkByRoot(ws []WalkObs) [][]WalkObs {
 	return out
 }
 
+// the errors a callback fails with: the harness's own, and values a walk implementation might use as signals itself
+var callbackErrs = []error{real.ErrInjected, fs.SkipAll, fs.SkipDir, io.EOF, context.Canceled,
+	fmt.Errorf("giving up: %w", fs.SkipAll), errors.Join(real.ErrInjected, fs.SkipAll), io.ErrUnexpectedEOF}
+
 func checkWalkState(r *evid.Run, d *DocState, concs []*tok.Conc) {
 	byRoot := splitWalkByRoot(d.Walk)
 	for _, c := range concs {
@@ -96,11 +104,12 @@ func checkWalkState(r *evid.Run, d *DocState, concs []*tok.Conc) {
 		n := len(want)
 		// full walk + every failing position, From-Markdown
 		for k := 0; k <= n; k++ {
-			got, o := real.WalkMD(doc, k, real.ErrInjected, bo...)
+			failErr := callbackErrs[(d.N+k)%len(callbackErrs)] // "returned unchanged": whatever error it is
+			got, o := real.WalkMD(doc, k, failErr, bo...)
 			r.Count("real_calls", 1)
 			wantK, wantErr := want, error(nil)
 			if k > 0 {
-				wantK, wantErr = want[:k], real.ErrInjected
+				wantK, wantErr = want[:k], failErr
 			}
 			if o.Class() == "panic" || o.Class() == "hang" || o.Err != wantErr || !sameWalk(got, wantK) {
 				kind := "records-differ"
@@ -135,11 +144,12 @@ func checkWalkState(r *evid.Run, d *DocState, concs []*tok.Conc) {
 			// leave the tree as it found it
 			reused := buildRoot(t, c)
 			for k := 0; k <= len(wantR); k++ {
+				failErr := callbackErrs[(d.N+k+i)%len(callbackErrs)]
 				wantK, wantErr := wantR, error(nil)
 				if k > 0 {
-					wantK, wantErr = wantR[:k], real.ErrInjected
+					wantK, wantErr = wantR[:k], failErr
 				}
-				got, o := real.WalkRoot(reused, k, real.ErrInjected, bo...)
+				got, o := real.WalkRoot(reused, k, failErr, bo...)
 				r.Count("real_calls", 1)
 				if o.Class() != "ok" && o.Class() != "err" || o.Err != wantErr || !sameWalk(got, wantK) {
 					r.Mismatch("walk-root:records", fmt.Sprintf("tree#%d of doc=%q conc=%s k=%d want=%v/%v got=%v/%v %s", i, doc, c.Name, k, wantK, wantErr, got, o.Err, firstLine(o.Panic)),
@@ -167,6 +177,7 @@ func checkC05(r *evid.Run) {
 		cfg, nconc, timeout = "MC_C05_thorough.cfg", 7, 30*time.Minute
 	}
 	concs := tok.Concs(r.Seed, nconc, allChunkIDs)
+	concs = append(concs, tok.InvalidUTF8Conc(int(r.Seed)+1, allChunkIDs))
 	runDocModel(r, modelRun{Module: "MC_C05", Cfg: cfg, Timeout: timeout}, func(d *DocState) {
 		if d.Verdict != "accept" || len(d.Forest) == 0 {
 			return
